@@ -1,7 +1,7 @@
 (* FiltChainAddr.v — retrieval for paths with existence filters, from the path text: the path `$` steps returns exactly
    the values its steps reach, where a filter step [?(@ inner)] keeps, of the elements of an array (index order) or
    the members of an object (ascending key order), those from which the inner steps reach at least one value. *)
-From JP Require Import Peg Grammar Slice Text Tree Actions Json Eval WF Spec SortFacts EvalInv1 EvalInv4 EvalTop EndToEnd Codec KeyDefs KeyParse IdxParse SliceParse UnionParse WildParse RecParse ChainParse SpacePath FunParse AggParse FiltParse CmpParse NegFilt QueryParse FiltChain ChainAddr FunAddr AggAddr FiltAddr CmpAddr QueryAddr.
+From JP Require Import Peg Grammar Slice Text Tree Actions Json Eval WF Spec SortFacts EvalInv1 EvalInv4 EvalTop EndToEnd Codec KeyDefs KeyParse IdxParse SliceParse UnionParse WildParse RecParse ChainParse SpacePath FunParse AggParse FiltParse CmpParse NegFilt RootOp QueryParse FiltChain ChainAddr FunAddr AggAddr FiltAddr CmpAddr QueryAddr.
 From Coq Require Import Lia.
 Open Scope list_scope.
 
@@ -20,16 +20,16 @@ Section FiltChainAddr.
   Notation fwd := (ChainAddr.fwd ffun afun regex_match).
 
   (* one step of the larger kind, and a whole path of them *)
-  Definition nav1f (x : fstep) (lv : list pstep * value) : list (list pstep * value) :=
+  Definition nav1f (root : value) (x : fstep) (lv : list pstep * value) : list (list pstep * value) :=
     match x with
     | FS y => nav1r y lv
     | FE i => navf i lv
     | FC i o lit => navp (ctest i o (lit_num parse_float lit)) lv
     | FN i => navp (fun x => negb (reaches i x)) lv
-    | FQ d => navp (dnf_test parse_float d) lv
+    | FQ d => navp (dnf_test parse_float root d) lv
     end.
-  Fixpoint nav_allf (l : list fstep) (lv : list pstep * value) : list (list pstep * value) :=
-    match l with [] => [lv] | x :: r => flat_map (nav_allf r) (nav1f x lv) end.
+  Fixpoint nav_allf (root : value) (l : list fstep) (lv : list pstep * value) : list (list pstep * value) :=
+    match l with [] => [lv] | x :: r => flat_map (nav_allf root r) (nav1f root x lv) end.
 
   Definition fseg (x : fstep) (b1 b2 : basic) (next : onode) : node :=
     match x with
@@ -40,10 +40,10 @@ Section FiltChainAddr.
     | FQ d => Node (fq_kind cfg parse_float d) b2 next
     end.
 
-  Lemma sp_fseg x b1 b2 next root p v : fstep_ok x = true -> small v ->
-    sp (fseg x b1 b2 next) root (Some p, v) = flat_map (fwd b2 next root) (nav1f x (p, v)).
+  Lemma sp_fseg x b1 b2 next root p v : fstep_ok x = true -> small root -> small v ->
+    sp (fseg x b1 b2 next) root (Some p, v) = flat_map (fwd b2 next root) (nav1f root x (p, v)).
   Proof.
-    intros Hs Hsm. destruct x as [y|i|i o lit|i|d]; cbn [fseg nav1f fstep_ok] in *; [| | |apply (sp_neg cfg ffun afun regex_match); assumption|apply (sp_fq cfg parse_float ffun afun regex_match); assumption].
+    intros Hs Hr Hsm. destruct x as [y|i|i o lit|i|d]; cbn [fseg nav1f fstep_ok] in *; [| | |apply (sp_neg cfg ffun afun regex_match); assumption|apply (sp_fq cfg parse_float ffun afun regex_match); assumption].
     - apply (sp_seg ffun afun regex_match); assumption.
     - apply (sp_filt cfg ffun afun regex_match); assumption.
     - apply andb_true_iff in Hs. destruct Hs as [Hs _]. apply andb_true_iff in Hs. destruct Hs as [Hs _].
@@ -73,7 +73,7 @@ Section FiltChainAddr.
     - apply in_flat_map in Hin. destruct Hin as [k [_ Hk]]. destruct (lookup m k) as [y|] eqn:El; [|contradiction].
       destruct (reaches i y); [|contradiction]. destruct Hk as [E|[]]. inversion E; subst. eapply small_obj_lookup; eassumption.
   Qed.
-  Lemma nav1f_small x p v : small v -> Forall (fun lv => small (snd lv)) (nav1f x (p, v)).
+  Lemma nav1f_small root x p v : small v -> Forall (fun lv => small (snd lv)) (nav1f root x (p, v)).
   Proof. intros Hsm. destruct x as [y|i|i o lit|i|d]; cbn [nav1f]; [apply nav1r_small|apply navf_small|apply navp_small|apply navp_small|apply navp_small]; exact Hsm. Qed.
 
   Lemma fin_fpres_f x r : exists b1 b2, fin (fpres cfg parse_float (x :: r)) = OSome (fseg x b1 b2 (fin (fpres cfg parse_float r))) /\ accessor b2 = cfg_accessor cfg.
@@ -98,21 +98,21 @@ Section FiltChainAddr.
   Qed.
 
   Lemma sp_fchain : forall r x b1 b2, forallb fstep_ok (x :: r) = true -> accessor b2 = cfg_accessor cfg ->
-    exists B, accessor B = cfg_accessor cfg /\ forall root p v, small v ->
+    exists B, accessor B = cfg_accessor cfg /\ forall root p v, small root -> small v ->
       sp (fseg x b1 b2 (fin (fpres cfg parse_float r))) root (Some p, v) =
-      map (fun lv => (B, true, (Some (fst lv), snd lv))) (nav_allf (x :: r) (p, v)).
+      map (fun lv => (B, true, (Some (fst lv), snd lv))) (nav_allf root (x :: r) (p, v)).
   Proof.
     induction r as [|y r IH]; intros x b1 b2 Hs Hb; cbn [forallb] in Hs; apply andb_true_iff in Hs; destruct Hs as [H1 H2].
-    - exists b2. split; [exact Hb|]. intros root p v Hsm. change (fin (fpres cfg parse_float [])) with ONone. rewrite sp_fseg by assumption.
+    - exists b2. split; [exact Hb|]. intros root p v Hr Hsm. change (fin (fpres cfg parse_float [])) with ONone. rewrite sp_fseg by assumption.
       cbn [nav_allf]. rewrite <- flat_map_single, flat_map_flat_map. apply flat_map_ext'. intros lv. reflexivity.
     - destruct (fin_fpres_f y r) as (c1 & c2 & Ef & Hc). destruct (IH y c1 c2 H2 Hc) as (B & HB & Hsp).
-      exists B. split; [exact HB|]. intros root p v Hsm. rewrite Ef, sp_fseg by assumption.
-      cbn [nav_allf]. rewrite map_flat_map'. apply flat_map_ext_in'. intros [l z] Hin. unfold ChainAddr.fwd. cbn [fst snd]. apply Hsp.
-      pose proof (nav1f_small x p v Hsm) as Hn. rewrite Forall_forall in Hn. exact (Hn (l, z) Hin).
+      exists B. split; [exact HB|]. intros root p v Hr Hsm. rewrite Ef, sp_fseg by assumption.
+      cbn [nav_allf]. rewrite map_flat_map'. apply flat_map_ext_in'. intros [l z] Hin. unfold ChainAddr.fwd. cbn [fst snd]. apply Hsp; [exact Hr|].
+      pose proof (nav1f_small root x p v Hsm) as Hn. rewrite Forall_forall in Hn. exact (Hn (l, z) Hin).
   Qed.
 
   Lemma spec_fchain x r doc : forallb fstep_ok (x :: r) = true -> small doc ->
-    spec_results ffun afun regex_match (fchain_node cfg parse_float (x :: r)) doc = map (loc_result cfg) (nav_allf (x :: r) ([], doc)).
+    spec_results ffun afun regex_match (fchain_node cfg parse_float (x :: r)) doc = map (loc_result cfg) (nav_allf doc (x :: r) ([], doc)).
   Proof.
     intros Hs Hsm. destruct (fchain_node_seg x r) as (b1 & b2 & En & Hb). destruct (sp_fchain r x b1 b2 Hs Hb) as (B & HB & Hsp).
     unfold spec_results. rewrite En, Hsp by exact Hsm. rewrite map_map. apply map_ext. intros [l z].
@@ -121,7 +121,7 @@ Section FiltChainAddr.
 
   Theorem fchain_retrieval x r doc st : forallb fstep_ok (x :: r) = true -> forallb (fstep_okp parse_float) (x :: r) = true -> small doc -> ok st ->
     exists t, parse (fchain_path (x :: r)) = ParseOk t /\
-              match nav_allf (x :: r) ([], doc) with
+              match nav_allf doc (x :: r) ([], doc) with
               | [] => exists e, fst (eval_run t doc st) = OErr e
               | l => fst (eval_run t doc st) = OOk (map (loc_result cfg) l)
               end.
@@ -130,7 +130,7 @@ Section FiltChainAddr.
     pose proof (parse_fchain_path cfg parse_float regex_ok x r Hs Hokp) as Hp. split; [exact Hp|].
     pose proof (retrieve_end_to_end cfg parse_float regex_ok ffun afun regex_match ffun_small afun_small (fchain_path (x :: r)) doc st Hd Hok) as H.
     rewrite Hp in H. rewrite (spec_fchain x r doc Hs Hd) in H.
-    destruct (nav_allf (x :: r) ([], doc)) as [|a l] eqn:En.
+    destruct (nav_allf doc (x :: r) ([], doc)) as [|a l] eqn:En.
     - destruct (fst (eval_run (fchain_node cfg parse_float (x :: r)) doc st)) as [rs|e|pn].
       + destruct H as [H1 [H2 _]]. contradiction (H2 H1).
       + exists e. reflexivity.
@@ -142,6 +142,26 @@ Section FiltChainAddr.
   Qed.
 
   (* a path without filters is a path of the old kind *)
-  Lemma nav_allf_plain steps lv : nav_allf (map FS steps) lv = nav_all steps lv.
+  Lemma nav_allf_plain root steps lv : nav_allf root (map FS steps) lv = nav_all steps lv.
   Proof. revert lv. induction steps as [|x r IH]; intros lv; [reflexivity|]. cbn [map nav_allf nav_all nav1f]. apply flat_map_ext'. exact IH. Qed.
+
+  (* steps whose filters mention the document root nowhere select the same whatever the root is *)
+  Definition bq_rootfree (b : bq) : bool := match b with BRE _ | BRN _ | BCR _ _ _ => false | _ => true end.
+  Definition fstep_rootfree (x : fstep) : bool := match x with FQ d => forallb (forallb bq_rootfree) d | _ => true end.
+  Lemma nav1f_rootfree root root' x lv : fstep_rootfree x = true -> nav1f root x lv = nav1f root' x lv.
+  Proof.
+    intros H. destruct x as [y|i|i o lit|i|d]; cbn [nav1f]; try reflexivity. cbn [fstep_rootfree] in H.
+    assert (E : forall v, dnf_test parse_float root d v = dnf_test parse_float root' d v).
+    { intros v. unfold dnf_test. induction d as [|c d IH]; [reflexivity|]. cbn [forallb] in H. apply andb_true_iff in H. destruct H as [H1 H2].
+      cbn [existsb]. rewrite (IH H2). f_equal. clear -H1. induction c as [|b c IH]; [reflexivity|]. cbn [forallb] in H1. apply andb_true_iff in H1. destruct H1 as [Hb Hc].
+      cbn [forallb]. rewrite (IH Hc). f_equal. destruct b; try discriminate Hb; reflexivity. }
+    unfold navp. destruct (snd lv); try reflexivity.
+    - apply flat_map_ext'. intros iv. rewrite E. reflexivity.
+    - apply flat_map_ext'. intros k. destruct (lookup _ k); [rewrite E|]; reflexivity.
+  Qed.
+  Lemma nav_allf_rootfree root root' q : forallb fstep_rootfree q = true -> forall lv, nav_allf root q lv = nav_allf root' q lv.
+  Proof.
+    induction q as [|x r IH]; intros H lv; [reflexivity|]. cbn [forallb] in H. apply andb_true_iff in H. destruct H as [H1 H2].
+    cbn [nav_allf]. rewrite (nav1f_rootfree root root' x lv H1). apply flat_map_ext'. intros a. apply IH. exact H2.
+  Qed.
 End FiltChainAddr.
